@@ -7229,10 +7229,14 @@ def main(): # pragma: no cover
             else:
                 debug_dump_datatree(None)
 
-    with open(program_name + ".h", "w") as f:
-        f.write(header)
-    with open(program_name + ".c", "w") as f:
-        f.write(source)
+    try:
+        with open(program_name + ".h", "w") as f:
+            f.write(header)
+        with open(program_name + ".c", "w") as f:
+            f.write(source)
+    except IOError as e:
+        print("Unable to write output file:", str(e), file=sys.stderr)
+        exit(6)
 
 if __name__ == "__main__":
     main()
